@@ -3,8 +3,8 @@
 (* column x WHERE filter over world W7.  One TLC state per scenario.         *)
 EXTENDS WorldC07, Lang, Json, FiniteSets
 
-VARIABLES fns, col, flt, phase
-vars == <<fns, col, flt, phase>>
+VARIABLES fns, col, flt, wrap, phase
+vars == <<fns, col, flt, wrap, phase>>
 
 Fns == {"count", "sum", "min", "max", "avg", "var_pop", "var_samp", "stddev_pop", "stddev_samp"}
 Lists == { <<f>> : f \in Fns } \cup
@@ -20,22 +20,25 @@ FAtoms == [ A |-> LikeA("a"), B |-> LikeA("b"), C |-> LikeA("c"), D |-> LikeA("d
             E |-> A1("name", "eq", TextL(<<"a","1",".","t","x","t">>), ""), F |-> LikeA("e"), S |-> LikeA("s"), T |-> A1("length(name)", "gte", IntL(0), "") ]
 SmallOnly == {"a", "b", "none", "one", "ab", "e", "ae", "sa", "se"}      \* filters that keep the sparse giants away from line_count
 
-Init == fns = <<>> /\ col = "" /\ flt = "" /\ phase = "start"
+Init == fns = <<>> /\ col = "" /\ flt = "" /\ wrap = "" /\ phase = "start"
 Choose == /\ phase = "start"
           /\ fns' \in Lists /\ col' \in Cols
           /\ flt' \in (IF col' = "line_count" THEN SmallOnly ELSE DOMAIN Filters)
+          \* wrap: every aggregate of the list stands inside a scalar function or an arithmetic expression that leaves its value as it is
+          /\ wrap' \in (IF col' \in {"size", "hardlinks"} /\ \A i \in 1 .. Len(fns') : fns'[i] \in {"count", "sum", "min", "max"} THEN {"", "abs", "plus0"} ELSE {""})
           /\ phase' = "done"
 Next == Choose
 Spec == Init /\ [][Next]_vars
 
-FnText(f) == IF f = "count" THEN "count(*)" ELSE f \o "(" \o col \o ")"
+FnText0(f) == IF f = "count" THEN "count(*)" ELSE f \o "(" \o col \o ")"
+FnText(f) == CASE wrap = "abs" -> "abs(" \o FnText0(f) \o ")" [] wrap = "plus0" -> "0 + " \o FnText0(f) [] OTHER -> FnText0(f)
 RECURSIVE ListText(_)
 ListText(i) == IF i > Len(fns) THEN "" ELSE (IF i > 1 THEN ", " ELSE "") \o FnText(fns[i]) \o ListText(i + 1)
 WhereText == IF flt = "all" THEN "" ELSE " where " \o FormulaText(Filters[flt], FAtoms, "min")
 
 RECURSIVE FnsClass(_)
 FnsClass(i) == IF i > Len(fns) THEN "" ELSE (IF i > 1 THEN "+" ELSE "") \o fns[i] \o FnsClass(i + 1)
-Scenario == [prop |-> "C07", world |-> "W7", class |-> FnsClass(1) \o "/" \o col \o "/" \o flt,
+Scenario == [prop |-> "C07", world |-> "W7", class |-> FnsClass(1) \o "/" \o col \o "/" \o flt \o (IF wrap = "" THEN "" ELSE "/inside-" \o wrap),
              fns |-> fns, col |-> col, keys |-> <<>>,
              formula |-> [f |-> "prefix", toks |-> Filters[flt], atoms |-> FAtoms],
              env |-> [tz |-> "UTC", cwd |-> 0],
